@@ -26,7 +26,7 @@ def _F2(id, harness, kind, fns, contract, **kw):
 
 _FB2_GEO = ("copy region 3x2 (non-square: all eight maps and the width/height swap are distinguishable) at a symbolic origin within "
             "+-2^30; ")
-_FB2_PRE = ("requires grids.len() == regions.len() == bit_depth.len(), grid dimensions == region dimensions (ImageWithRegion invariant; "
+_FB2_PRE = ("requires grids.len() == regions.len() == bit_depth.len(), grid dimensions == region dimensions (ImageWithRegion invariant, asserted by append_channel / replace_channel, jxl-render image.rs:329-387; "
             "call sites Render::image_all_channels / image_planar, lib.rs:1150-1198), orientation 1..8 (1 + u(3)); ")
 for _o in range(1, 9):
     _F2("fb2.from_grids_regions_o%d" % _o, "from_grids_regions_o%d" % _o,
@@ -61,12 +61,14 @@ for _o in range(1, 9):
         timeout=300)
 _F2("fb2.stream_u8_matches_from_grids_o7", "stream_u8_matches_from_grids_o7",
     "bounded:" + _FB2_GEO + "orientation 7, two f32 channels (4x3 grid padded left/top, 3x2 grid shifted one column right) declared 8-bit and "
-    "16-bit, every sample value, split after 5 samples; [Vec::reserve -> no_reserve]",
+    "16-bit, every sample value, split after 5 samples, all 12 samples compared; [Vec::reserve -> no_reserve]",
     ["ImageStream::write_to_buffer", "<u8 as Sealed>::copy_from_grid", "<u8 as Sealed>::copy_from_f32", "FrameBuffer::from_grids"],
     "every u8 sample i of the stream == copy_from_f32(sample i of from_grids) (fast path for the 8-bit channel, generic path for the other); "
-    "rounding/clamping itself is fb.copy_from_f32_u8", timeout=600)
-_F2("fb2.stream_u16_matches_from_grids_o4", "stream_u16_matches_from_grids_o4",
-    "bounded:" + _FB2_GEO + "orientation 4, same channels, split after 8 samples; [Vec::reserve -> no_reserve]",
+    "rounding/clamping itself is fb.copy_from_f32_u8", timeout=300)
+_F2("fb2.stream_u16_matches_from_grids_o8", "stream_u16_matches_from_grids_o8",
+    "bounded:copy region 2x1 at a symbolic origin (the 16-bit rounding is ~50x harder for the solver than the 8-bit one: 3x2 needs 660 s; "
+    "the position logic is generic code shared with the f32 rows), orientation 8, 3x2 grid padded left/top (8-bit) and 2x1 grid shifted one "
+    "column right (16-bit), every sample value, split after 3 samples; [Vec::reserve -> no_reserve]",
     ["ImageStream::write_to_buffer", "<u16 as Sealed>::copy_from_grid", "<u16 as Sealed>::copy_from_f32", "FrameBuffer::from_grids"],
     "every u16 sample i of the stream == copy_from_f32(sample i of from_grids) (fast path for the 16-bit channel, generic path for the other); "
     "rounding/clamping itself is fb.copy_from_f32_u16", tier="thorough", timeout=900)
